@@ -185,6 +185,9 @@ func (*c09) Corpus() []any {
 		out = append(out, conc.Case{Backend: b, Pre: c9preOf(-1), Note: "pruning window: a stale upgrade --max-history 2 prunes the other's pending revision",
 			Ops:   []eng.Op{c9op("upgrade", 10, eng.Flags{MaxHistory: 2}, "a"), c9op("upgrade", 11, eng.Flags{}, "a")},
 			Sched: []int{1, 1, 0, 0, 1, 0, 0, 0, 1, 1, 0, 1, 0, 0, 0}})
+		// a plain upgrade that starts while the automatic rollback of the failed --atomic upgrade is in
+		// flight (revision 2 failed, revision 3 pending-rollback) must be refused: "another operation is in progress"
+		out = append(out, base[7].mk(b, []int{0, 0, 0, 0, 0, 0, 0, 0, 0, 0, 1, 0, 1, 0, 1}))
 		// K-C09-2: the automatic rollback of a failed --atomic upgrade races the other upgrade
 		out = append(out, base[7].mk(b, []int{0, 0, 0, 0, 0, 1, 0, 1, 1, 1, 0, 0, 1, 0, 0, 0, 0, 0}))
 	}
@@ -408,6 +411,17 @@ func (*c09) Oracle(ci, oi any) []hx.Violation {
 	for i, oo := range o.Ops {
 		if oo.Panic != "" {
 			add("C09:panic", fmt.Sprintf("operation %d panicked: %s", i, oo.Panic))
+		}
+	}
+	// (1b) an upgrade that finds the last revision pending (install, upgrade OR rollback in flight)
+	// must stop with the operation-in-progress error, having done nothing
+	for i, oo := range o.Ops {
+		if c.Ops[i].Kind != "upgrade" || !strings.HasPrefix(oo.FirstLast, "pending-") {
+			continue
+		}
+		if oo.Outcome != "err:pending" || len(oo.Created) > 0 || oo.MutCalls > 0 {
+			add("C09:pending-last-revision-not-refused", fmt.Sprintf("operation %d (upgrade) read a history whose last revision is %s but went on: outcome %s, created %v, %d mutating cluster calls",
+				i, oo.FirstLast, oo.Outcome, oo.Created, oo.MutCalls))
 		}
 	}
 	// (2) an operation that created no revision is inert and fails with the right class
